@@ -6,7 +6,8 @@ ENTRY = dict(
         prop_file="Properties/C06.v",
         corr_files=["Corr/C06Corr.v"],
         theorems=["c06_E_def", "c06_estimator", "c06_v1_v2", "c06_split_pack", "c06_from_bytes", "c06_count_refused",
-                  "c06_sign_values", "c06_keys", "c06_keys_same_result", "c06_oracle_contract_inhabited",
+                  "c06_sign_values", "c06_keys", "c06_keys_same_result", "c06_total", "c06_measured_qubits", "c06_mask_bits", "c06_lookup",
+                  "c06_letters_shape", "c06_oracle_contract_inhabited",
                   "c06_types_refused", "c06_keyset_refused", "c06_phase_refused", "c06_public_map", "c06_public_list",
                   "c06_facts"],
         allowed_axioms=[],
